@@ -1486,6 +1486,20 @@ fn parse_unary_expression(tokens: &mut Tokens) -> Result<Expression, Error>
 						location,
 					})
 				}
+				Expression::BitIntegerLiteral {
+					value,
+					value_type,
+					location: _,
+				} if value == (i128::MAX as u128) + 1 =>
+				{
+					// 2^127 is too big for a signed literal, but its negative
+					// is exactly the minimum of i128.
+					Ok(Expression::SignedIntegerLiteral {
+						value: i128::MIN,
+						value_type,
+						location,
+					})
+				}
 				expr =>
 				{
 					let expression = Expression::Unary {
